@@ -1,14 +1,14 @@
 #!/bin/bash
 # usage: mutlab.sh <patch> <ID> [extra check args]
 # Runs one property's check against a seeded change in an isolated lab: a scratch worktree of /repo HEAD with the
-# patch applied plus a scratch copy of /verif pointed at it (so /repo and /verif are untouched and several labs can
+# patch applied plus a scratch copy of /verif's committed HEAD pointed at it (so /repo and /verif are untouched and several labs can
 # run side by side).  Prints the VIOLATION / KNOWN-FINDING lines and "exit=<rc>"; removes the lab afterwards.
 patch="$(readlink -f "$1")"; id="$2"; shift 2
 lab=$(mktemp -d /tmp/mutlab-XXXXXX)
 trap 'git -C /repo worktree remove --force '$lab'/repo 2>/dev/null; rm -rf '$lab'' EXIT
 git -C /repo worktree add -q --detach $lab/repo HEAD || exit 2
 git -C $lab/repo apply "$patch" || { echo "patch does not apply"; echo "exit=APPLY-FAILED"; exit 2; }
-rsync -a --exclude build --exclude replays --exclude .git /verif/ $lab/verif/
+mkdir -p $lab/verif && git -C /verif archive HEAD | tar -x -C $lab/verif   # the committed state, not a half-edited working tree
 sed -i "s#=> /repo#=> $lab/repo#" $lab/verif/vmc/go.mod
 cd $lab/verif
 VERIF_REPO=$lab/repo timeout 3000 ./check "$id" "$@" > $lab/out.log 2>&1; rc=$?
